@@ -306,7 +306,7 @@ func init() {
 		Assume:      []string{"runtime panics injected by the harness extension verif_panic()", "cancellation injected by verif_cancel() and a pre-cancelled context"},
 		QuickCap:    100 * time.Second,
 		ThoroughCap: 20 * time.Minute,
-		HangLimit:   60 * time.Second,
+		HangLimit:   240 * time.Second,
 		Run:         runC10,
 		Replay: func(c *core.Ctx, cs core.Case) *core.Viol {
 			h := parseInts(cs.Data)
